@@ -1,7 +1,9 @@
 package fuzzer
 
 import (
+	"fmt"
 	"math/rand"
+	"strings"
 
 	"github.com/smarthome-go/homescript/v3/homescript/analyzer/ast"
 )
@@ -20,7 +22,23 @@ type Transformer struct {
 	// Keeps track of how many ast nodes the transformewr already changed.
 	modifications uint
 
+	// Text of the program which the current pass transforms and the number of helper names handed out so far:
+	// the variables which the rewrites introduce must not capture (or be captured by) names of the program.
+	programText string
+	helperCount uint
+
 	Out string
+}
+
+// A name for a helper variable of a rewrite which does not occur in the program.
+func (self *Transformer) helperIdent(base string) string {
+	for {
+		self.helperCount++
+		candidate := fmt.Sprintf("%s_%d", base, self.helperCount)
+		if !strings.Contains(self.programText, candidate) {
+			return candidate
+		}
+	}
 }
 
 func NewTransformer(seed int64) Transformer {
@@ -44,6 +62,7 @@ func (self *Transformer) TransformPasses(tree ast.AnalyzedProgram, passes int) [
 }
 
 func (self *Transformer) Transform(tree ast.AnalyzedProgram) ast.AnalyzedProgram {
+	self.programText = tree.String()
 	output := ast.AnalyzedProgram{
 		Imports:   make([]ast.AnalyzedImport, 0),
 		Types:     make([]ast.AnalyzedTypeDefinition, 0), // Should not transform these, stuff will break
